@@ -24,6 +24,68 @@ theorem raising_repr_gives_placeholder (maxLen : Nat) (ty : Str) (e : Err) :
 
 theorem default_max_length_ok : Gen.cut ≤ Gen.maxLength ∧ Gen.maxLength = 128 := by decide
 
+theorem mem_length_le_sum (ls : List Str) (l : Str) (h : l ∈ ls) : l.length ≤ (ls.map List.length).sum := by
+  induction ls with
+  | nil => simp at h
+  | cons a rest ih =>
+    simp only [List.mem_cons] at h
+    simp only [List.map_cons, List.sum_cons]
+    rcases h with rfl | h
+    · omega
+    · have := ih h; omega
+
+/-- **value_display_bounded**: "each value bounded in length" for values whose repr contains newlines:
+the lines one value occupies in the report (`value.split("\n")`) hold, separators included, at most
+`max_length` characters in total – so both the length of every line and the NUMBER of lines are
+bounded, whatever the repr (matrix / table objects with thousands of lines included) -/
+theorem value_display_bounded (maxLen : Nat) (v : Val) (h : Gen.cut ≤ maxLen) :
+    ((displayLines maxLen v).map List.length).sum + (displayLines maxLen v).length ≤ maxLen + 1 ∧
+    (displayLines maxLen v).length ≤ maxLen + 1 ∧
+    ∀ l ∈ displayLines maxLen v, l.length ≤ maxLen := by
+  have hsz := splitOnChar_size Gen.valueLineSep (formatValue maxLen v)
+  have hb := formatValue_bounded maxLen v h
+  have hne := splitOnChar_ne_nil Gen.valueLineSep (formatValue maxLen v)
+  have hpos : 1 ≤ (displayLines maxLen v).length := by
+    unfold displayLines; exact List.length_pos_iff.mpr hne
+  unfold displayLines at *
+  refine ⟨by omega, by omega, ?_⟩
+  intro l hl
+  have := mem_length_le_sum _ l hl
+  omega
+
+theorem truncatePerLine_newlines (maxLen n : Nat) :
+    (truncatePerLine maxLen (List.replicate n Gen.valueLineSep)).length = n := by
+  have ht : truncate maxLen [] = [] := by simp [truncate, Gen.tooLong]
+  have hmap : (List.replicate (n + 1) ([] : Str)).map (truncate maxLen) = List.replicate (n + 1) [] := by
+    simp [ht]
+  have := intercalate_length Gen.valueLineSep (List.replicate (n + 1) ([] : Str)) (by simp [List.replicate_succ])
+  unfold truncatePerLine
+  rw [splitOnChar_replicate_sep, hmap]
+  simp at this
+  omega
+
+/-- the refuted shape (seeded change C13-d: the limit applied to every line of the repr on its own) is
+unbounded for EVERY limit: for each size `n` there is a repr all of whose lines respect the limit
+and whose per-line truncation still has `n` characters (on `n + 1` lines) -/
+theorem per_line_truncation_unbounded (maxLen n : Nat) :
+    ∃ s : Str, (∀ l ∈ splitOnChar Gen.valueLineSep s, l.length ≤ maxLen) ∧
+      (truncatePerLine maxLen s).length = n := by
+  refine ⟨List.replicate n Gen.valueLineSep, ?_, truncatePerLine_newlines maxLen n⟩
+  intro l hl
+  rw [splitOnChar_replicate_sep] at hl
+  simp at hl; simp [hl]
+
+/-- concrete instance replayed on the implementation by the value grid of `harness/c13.py`: 200 newlines
+survive per-line truncation at 128 untouched, whole-value truncation cuts them to 128 -/
+theorem per_line_truncation_witness :
+    (truncatePerLine 128 (List.replicate 200 Gen.valueLineSep)).length = 200 ∧
+    (truncate 128 (List.replicate 200 Gen.valueLineSep)).length = 128 := by
+  refine ⟨truncatePerLine_newlines 128 200, ?_⟩
+  have key : ∀ s : Str, s.length = 200 → (truncate 128 s).length = 128 := by
+    intro s hs
+    simp [truncate, Gen.tooLong, Gen.cut, Gen.ellipsis, List.length_take, hs]
+  exact key _ List.length_replicate
+
 /-- **values_bounded**: in every report – any heap, any graph, any mode, any entry point, any
 budget – every value piece is at most `max_length` long -/
 theorem values_bounded (h : Heap) (o : Opts) (budget : Nat) (root : ExcId) (fromDec : Bool)
